@@ -15,7 +15,7 @@ def model_check(rep):
                                ("MC_FileDest_skip.cfg", "vacuity guard: flush skipped for some messages", "C11_AckedDurable"),
                                ("MC_FileDest_late.cfg", "vacuity guard: flush after the call returned", "C11_AckedDurable"),
                                ("MC_FileDest_swallow.cfg", "vacuity guard: a failing flush is swallowed and the call returns", "C11_AckedDurable")]:
-        r = run_tlc("FileDest", cfg, timeout=600, workers=8)
+        r = run_tlc("FileDest", cfg, timeout=600, workers=8, only=expect)
         require_ok(r, cfg)
         rep.add_tlc("%s (%s)" % (cfg, label), r, {"N": 4, "crash": "enabled in every state"}, expect_violation=expect)
         if expect and r.violated != expect:
